@@ -21,7 +21,7 @@ var replayFc = map[*Obligation]*FnCtx{}
 
 const (
 	replayModelBudget = 100 * time.Second // model extraction (solver session)
-	replayTestBudget  = 200 * time.Second // go test (build + run; the test itself runs with -timeout 60s)
+	replayTestBudget  = 360 * time.Second // go test (a cold build of the package's test binary can take minutes; the test itself runs with -timeout 60s)
 )
 
 // genericReplay: model -> inputs -> in-package test of the real function -> reproduced or not.
@@ -272,38 +272,49 @@ func replayOutcome(out string) string {
 	return strings.Join(ls, " | ")
 }
 
-// openModelSession starts an interactive solver on the obligation's query and waits for `sat`.
+// openModelSession starts an interactive solver on the obligation's query. A `sat` answer gives a model; when the
+// obligation was not decided (unknown / timeout: quantified background axioms), z3 with model-based quantifier
+// instantiation switched off stops after E-matching with `unknown` and a CANDIDATE model, which is good enough to try on
+// the real code (only the run decides).
 func openModelSession(ob *Obligation, script string, deadline time.Time) (*smtSession, string, error) {
 	type cand struct {
-		name string
-		args []string
+		name      string
+		args      []string
+		candidate bool // accept `unknown` + model
 	}
-	all := []cand{
-		{"z3-new", []string{"z3-new", "-in"}},
-		{"z3-new/noauto", []string{"z3-new", "-in", "smt.auto_config=false"}},
-		{"z3", []string{"z3", "-in"}},
+	exact := []cand{
+		{"z3-new", []string{"z3-new", "-in"}, false},
+		{"z3-new/noauto", []string{"z3-new", "-in", "smt.auto_config=false"}, false},
+		{"z3", []string{"z3", "-in"}, false},
+	}
+	loose := []cand{
+		{"z3-new/mbqi=false", []string{"z3-new", "-in", "smt.mbqi=false"}, true},
+		{"z3/mbqi=false", []string{"z3", "-in", "smt.mbqi=false"}, true},
 	}
 	var order []cand
-	if ob.Result != nil {
-		for _, c := range all {
+	if ob.Result != nil && ob.Result.Verdict == "sat" {
+		for _, c := range exact {
 			if c.name == ob.Result.Solver {
 				order = append(order, c)
 			}
 		}
-	}
-	for _, c := range all {
-		if len(order) == 0 || c.name != order[0].name {
-			order = append(order, c)
+		for _, c := range exact {
+			if len(order) == 0 || c.name != order[0].name {
+				order = append(order, c)
+			}
 		}
 	}
+	order = append(order, loose...)
+	// (push 1) right after set-logic selects z3's incremental core, which keeps a candidate model after `unknown`
+	script = strings.Replace(script, "(set-logic ALL)\n", "(set-logic ALL)\n(push 1)\n", 1) + "\n"
 	var last string
 	for i, c := range order {
 		remaining := time.Until(deadline)
-		if remaining < 10*time.Second {
+		if remaining < 15*time.Second {
 			break
 		}
-		// the first solver may use up to half of what is left, the model queries need the rest
-		per := remaining / 2
+		// one solver may use at most 40% of what is left (the model queries need the rest), later ones at most 20 s
+		per := remaining * 2 / 5
 		if i > 0 && per > 20*time.Second {
 			per = 20 * time.Second
 		}
@@ -312,14 +323,13 @@ func openModelSession(ob *Obligation, script string, deadline time.Time) (*smtSe
 			last = err.Error()
 			continue
 		}
-		// (push 1) right after set-logic selects z3's incremental core, which keeps a candidate model after `unknown`
-		if err := s.write(strings.Replace(script, "(set-logic ALL)\n", "(set-logic ALL)\n(push 1)\n", 1) + "\n"); err != nil {
+		if err := s.write(script); err != nil {
 			s.close()
 			last = err.Error()
 			continue
 		}
 		r := s.checkSat()
-		if r == "sat" || (r == "unknown" && ob.Result != nil && ob.Result.Verdict != "sat") {
+		if r == "sat" || (r == "unknown" && c.candidate) {
 			if _, err := s.getValues([]string{"H0_W"}); err == nil {
 				s.deadline = deadline
 				s.base = r
@@ -330,7 +340,7 @@ func openModelSession(ob *Obligation, script string, deadline time.Time) (*smtSe
 		last = c.name + ": " + truncate(r, 200)
 		s.close()
 	}
-	return nil, "", fmt.Errorf("no interactive solver reproduced the sat verdict (%s)", last)
+	return nil, "", fmt.Errorf("no solver produced a model or candidate model (%s)", last)
 }
 
 // runReplayTest injects zz_govc_replay_test.go into the package with -overlay and runs TestGovcReplay. The real code
@@ -349,7 +359,7 @@ func runReplayTest(repo, pkg, src string) (bool, string) {
 	os.WriteFile(ovFile, ovData, 0o644)
 	ctx, cancel := context.WithTimeout(context.Background(), replayTestBudget)
 	defer cancel()
-	cmd := exec.CommandContext(ctx, "bash", "-c", fmt.Sprintf("ulimit -v 8000000; cd %s && go1.26.8 test -mod=vendor -overlay %s -vet=off -count=1 -timeout 60s -run '^TestGovcReplay$' ./%s", repo, ovFile, pkg))
+	cmd := exec.CommandContext(ctx, "bash", "-c", fmt.Sprintf("ulimit -v 8000000; cd %s && exec go1.26.8 test -mod=vendor -overlay %s -vet=off -count=1 -timeout 60s -v -run '^TestGovcReplay$' ./%s", repo, ovFile, pkg))
 	cmd.Env = append(os.Environ(), "GOFLAGS=-mod=vendor", "GOTOOLCHAIN=local", "GOPROXY=off", "GOSUMDB=off", "GOMEMLIMIT=2GiB")
 	cmd.WaitDelay = 5 * time.Second
 	var out bytes.Buffer
